@@ -111,7 +111,10 @@ def worker(args):
         kind = "core"
         sheets = None
         if r < 0.35:
-            rows = G.gen_core_sheet(rng, rng.randint(2, maxrows), noop=rng.random() < 0.5)
+            dups = rng.random() < 0.35
+            rows = G.gen_core_sheet(rng, rng.randint(2, maxrows), noop=rng.random() < 0.5, dups=dups)
+            if dups:
+                kind = "core_redeclared_tests_shared_categories"
         elif r < 0.5:
             kind = "side_wfcore_violating"
             rows = mutate_side_stream(rng, G.gen_core_sheet(rng, rng.randint(3, maxrows), noop=rng.random() < 0.3))
